@@ -86,14 +86,19 @@ def build_query(case, classes, env, order=True, extra_filter=None):
     q = select(text, genv, dict(params))
     desc_text = 'select(%s)' % text
     if order:
-        keys = []
-        for name, d in case['order']:
-            keys.append(desc(getattr(cls, name)) if d else getattr(cls, name))
-        keys.append(cls.id)
-        q = q.order_by(*keys)
-        desc_text += '.order_by(%s)' % ', '.join(('desc(%s.%s)' if d else '%s.%s') % (ent, n) for n, d in case['order'])
-        desc_text += ('' if not case['order'] else ', ')[:0]
-        desc_text = desc_text[:-1] + (', ' if case['order'] else '') + '%s.id)' % ent
+        if proj is None:
+            keys = []
+            for name, d in case['order']:
+                keys.append(desc(getattr(cls, name)) if d else getattr(cls, name))
+            keys.append(cls.id)
+            q = q.order_by(*keys)
+            desc_text += '.order_by(%s)' % ', '.join([('desc(%s.%s)' if d else '%s.%s') % (ent, n) for n, d in case['order']]
+                                                     + ['%s.id' % ent])
+        else:
+            # attribute ordering is limited to entity results: projections are ordered by a lambda over the loop variable
+            keys = ', '.join([('desc(x.%s)' if d else 'x.%s') % n for n, d in case['order']] + ['x.id'])
+            q = eval(compile('q.order_by(lambda: (%s,))' % keys, '<q>', 'eval'), dict(genv, q=q, desc=desc))
+            desc_text += '.order_by(lambda: (%s,))' % keys
     return q, desc_text, genv
 
 
@@ -189,8 +194,8 @@ def check_case(ctx, case):
             elif op == 'exists':
                 msg = expect(q.exists(), bool(Rp), '.exists()')
             elif op in ('count', 'len'):
-                if single_attr and not case['flag']:
-                    exp = len(set(Rp))
+                if single_attr and (not case['flag'] or op == 'count'):
+                    exp = len(set(Rp))     # count() of a single column counts distinct values (documented default)
                 else:
                     exp = len(Rp)
                 got = q.count() if op == 'count' else len(q)
@@ -239,7 +244,7 @@ def check_case(ctx, case):
                     if collections.Counter(got) != collections.Counter(Rp):
                         msg = '%s.without_distinct() returned %r, expected the bag %r' % (d0, got, Rp)
             elif op in ('filter', 'where'):
-                if base is not None and proj is None:
+                if base is not None and proj is None and 'attr' in qgen.features(case['cond2']):
                     c2 = case['cond2']
                     fn_src = '%s(lambda x: %s)' % (op, qgen.render(c2))
                     q2 = eval(compile('q.%s' % fn_src, '<q>', 'eval'), dict(genv, q=q))
@@ -260,7 +265,15 @@ def check_case(ctx, case):
                         msg = expect(norm(q2[:]), keep, '.' + fn_src)
             elif op == 'order_only':
                 # ordering only permutes the unordered result
-                if not single_attr:
+                if single_attr:
+                    q0, d0, _ = build_query(case, classes, env, order=False)
+                    q1, d1, _ = build_query(case, classes, env, order=True)
+                    unordered = norm(q0[:])
+                    ordered = norm(q1[:])
+                    if collections.Counter(unordered) != collections.Counter(ordered):
+                        msg = '[order-changes-distinct] ordering changed the result as a multiset: %s gives %r, %s gives %r' % (
+                            d0, unordered, d1, ordered)
+                elif not single_attr:
                     q0, d0, _ = build_query(case, classes, env, order=False)
                     unordered = norm(q0[:])
                     ordered = norm(q[:])
@@ -285,7 +298,8 @@ def check_case(ctx, case):
                     gc = collections.Counter(got)
                     exp_len = min(k, sum(pool.values()))
                     if len(got) != exp_len or any(gc[r] > pool.get(r, 0) for r in gc):
-                        msg = '%s.random(%d) returned %r: expected %d rows drawn without repetition from %r' % (
+                        tag = '[order-changes-distinct] ' if single_attr and set(got) <= set(Rp) and len(got) <= min(k, len(Rp)) else ''
+                        msg = tag + '%s.random(%d) returned %r: expected %d rows drawn without repetition from %r' % (
                             d0, k, got, exp_len, sorted(pool.elements(), key=repr))
             elif op == 'subquery':
                 if base is not None and proj is None and a > 0:
@@ -317,6 +331,8 @@ def check_case(ctx, case):
         name = type(e).__name__
         if name in c01.REJECT:
             ctx.count('rejected:' + name)
+            if getattr(ctx, 'debug', False):
+                import traceback; traceback.print_exc()
             accepted = False
         else:
             ctx.count('error:' + name)
@@ -333,7 +349,7 @@ def check_case(ctx, case):
 def run(ctx):
     def t(case):
         check_case(ctx, case)
-    ctx.run_test(t, dict(case=cases()), max_examples=ctx.scale(500, 6000), name='C24')
+    ctx.run_test(t, dict(case=cases()), max_examples=ctx.scale(1000, 6000), name='C24')
 
 
 def replay(case):
@@ -356,10 +372,14 @@ def replay(case):
 
 
 def _order_drops_distinct(case, message):
-    return False
+    """open finding C24-order-by-drops-distinct: a single-attribute projection is DISTINCT by default, but adding
+    order_by() drops the automatic DISTINCT, so the ordered query returns duplicates the unordered one does not."""
+    # random(n) is ORDER BY RANDOM() LIMIT n: same root cause
+    return (case.get('op') in ('order_only', 'random') and case.get('proj') is not None and len(case['proj']) == 1
+            and '[order-changes-distinct]' in message)
 
 
-EXCLUSIONS = {}
+EXCLUSIONS = {'order_by_drops_distinct': _order_drops_distinct}
 
 MANIFEST = {
     'text': 'Generated ordered queries whose full result R is computed by the independent reference evaluator; every query method '
